@@ -65,6 +65,12 @@ func (c *cliClient) PostAssign(e *Engine, st *State, lhs, rhs []ast.Expr, _ ast.
 		return nil
 	}
 	callee := Callee(e.Info, call)
+	// v := <prelude>.String(): a snapshot of the prelude, valid until the prelude is written again
+	if sel, isSel := ast.Unparen(call.Fun).(*ast.SelectorExpr); isSel && sel.Sel.Name == "String" && c.prelude != nil && objOf(e.Info, sel.X) == c.prelude && len(lhs) == 1 {
+		if o := objOf(e.Info, lhs[0]); o != nil {
+			return st.WithExt("snap:"+e.objKey(o), "1")
+		}
+	}
 	switch {
 	case callee == c.compile && len(lhs) == 2:
 		if k := e.CanonSt(st, lhs[1]); k.OK {
@@ -127,6 +133,10 @@ func (c *cliClient) PreCall(e *Engine, st *State, call *ast.CallExpr, callee *ty
 		pieces := e.flattenConcat(call.Args[0], nil, 0)
 		left := pieces[0]
 		ok := false
+		// a snapshot of the prelude taken earlier (prelude := letStatements.String()) with no write to the prelude since
+		if o := objOf(info, left); o != nil && st.Ext("snap:"+e.objKey(o)) == "1" {
+			ok = true
+		}
 		if lc, isCall := ast.Unparen(left).(*ast.CallExpr); isCall {
 			if sel, isSel := ast.Unparen(lc.Fun).(*ast.SelectorExpr); isSel && sel.Sel.Name == "String" && objOf(info, sel.X) == c.prelude && c.prelude != nil {
 				ok = true
@@ -140,6 +150,12 @@ func (c *cliClient) PreCall(e *Engine, st *State, call *ast.CallExpr, callee *ty
 	}
 	// C16/let-on-success: the prelude only grows after the statement compiled.
 	if sel, ok := ast.Unparen(call.Fun).(*ast.SelectorExpr); ok && objOf(info, sel.X) == c.prelude && c.prelude != nil && strings.HasPrefix(sel.Sel.Name, "Write") {
+		// snapshots of the prelude taken before this write are stale now
+		for k := range st.ext {
+			if strings.HasPrefix(k, "snap:") {
+				st = st.WithExt(k, "")
+			}
+		}
 		key := fmt.Sprintf("%s prelude write #%d", c.where(e), c.ordinal(e, call, func(cc *ast.CallExpr) bool {
 			s2, ok := ast.Unparen(cc.Fun).(*ast.SelectorExpr)
 			return ok && objOf(info, s2.X) == c.prelude && strings.HasPrefix(s2.Sel.Name, "Write")
@@ -157,7 +173,7 @@ func (c *cliClient) PreCall(e *Engine, st *State, call *ast.CallExpr, callee *ty
 		if !ok {
 			e.Site("C16/let-on-success", key, call, false, "the let prelude is extended on a path where the statement was not validated successfully: a failed let would poison every later statement")
 		}
-		return nil
+		return st
 	}
 	// a buffered wrapper around the output must be flushed before every return
 	if sel, ok := ast.Unparen(call.Fun).(*ast.SelectorExpr); ok && sel.Sel.Name == "Flush" {
@@ -764,6 +780,18 @@ func ruleC16Carry(p *Program, r *Run, fd *ast.FuncDecl) {
 				if sel, ok := ast.Unparen(c2.Fun).(*ast.SelectorExpr); ok && sel.Sel.Name == "String" && isBuilder(info, sel.X) {
 					continue
 				}
+			}
+			// a leading variable holding the contents of a builder (the prelude hoisted into a local; C16/prelude
+			// checks that it is current)
+			if i == 0 && p.allDefsAre(o, func(x ast.Expr) bool {
+				c3, isCall := x.(*ast.CallExpr)
+				if !isCall {
+					return false
+				}
+				sel, ok := ast.Unparen(c3.Fun).(*ast.SelectorExpr)
+				return ok && sel.Sel.Name == "String" && isBuilder(info, sel.X)
+			}) {
+				continue
 			}
 			if ob := objOf(info, o); ob != nil {
 				vars = append(vars, ob)
